@@ -19,7 +19,7 @@ import (
 
 // Session-core scenario (see lean/XmppModel/Driver/C06.lean for the trace syntax).
 
-const watchdog = 1500 * time.Millisecond
+const watchdog = 4 * time.Second
 
 type reqSpec struct {
 	kind byte // i m p
